@@ -21,14 +21,16 @@ from fractions import Fraction
 import numpy as np
 
 from common import Ctx, frac, run_driver
-from translate import io_spec
+from translate import io_spec, ktn_cfg
 
 PROP = "C06"
-LEAN_MODULE = "TopSearch.Props.C06"
-LEAN_FILES = ["TopSearch.Props.C06", "TopSearch.Lemmas.IO", "TopSearch.Model.IO", "TopSearch.Gen.IOSpec",
+LEAN_MODULE = "TopSearch.Props.C06Reachable"
+LEAN_FILES = ["TopSearch.Props.C06", "TopSearch.Props.C06Reachable", "TopSearch.Lemmas.IO", "TopSearch.Model.IO", "TopSearch.Gen.IOSpec",
               "TopSearch.Model.Ktn", "TopSearch.Lemmas.Ktn"]
-EXTRA_TARGETS = ["TopSearch.Gen.IOSpec", "TopSearch.Model.IO"]
+EXTRA_TARGETS = ["TopSearch.Gen.IOSpec", "TopSearch.Model.IO", "TopSearch.Gen.Ktn"]
 REQUIRED = [
+    "TopSearch.Props.C06.C06_roundtrip_reachable", "TopSearch.Props.C06.C06_restored_coherent",
+    "TopSearch.Props.C02.C02_inv",
     "TopSearch.Props.C06.C06_bridge_spec",
     "TopSearch.Props.C06.C06_roundtrip",
     "TopSearch.Props.C06.C06_roundtrip_contents",
@@ -59,6 +61,9 @@ TABLE_FILES = ("min.data", "min.coords", "ts.data", "ts.coords", "pairlist")
 
 def regenerate(ctx: Ctx) -> None:
     ctx.gen_status.update(io_spec.regenerate())
+    # C06_roundtrip_reachable rests on the mutators as they are in the current source (C02)
+    ctx.gen_status.update(ktn_cfg.regenerate(["add_minimum", "add_ts", "remove_minimum", "remove_minima", "remove_ts",
+                                              "remove_tss", "reset_network", "__init__"]))
 
 
 # ----------------------------------------------------------------------------- networks
